@@ -157,11 +157,7 @@ def role(v):
     msg = v['msg']
     if v['kind'] != 'assert' or msg.startswith('MIR assert') or 'panic' in msg or 'UB' in msg:
         # a panic: where did it happen
-        import re
-        m = re.search(r'in .*?::(\w+)$', msg)
-        fnname = m.group(1) if m else (v.get('where') or ['?'])[-1].split('::')[-1]
-        what = 'div-by-zero' if 'divide' in msg else 'overflow' if 'overflow' in msg else 'index' if 'index' in msg or 'range' in msg else 'panic'
-        return '%s:%s:%s' % (job.get('parser', '?') if job.get('kind') == 'ctor' else 'update_' + job.get('parser', '?'), fnname, what)
+        return '%s:%s:%s' % (('from_' if job.get('kind') == 'ctor' else 'update_') + job.get('parser', '?'), hlib.panic_site(v), hlib.panic_kind(msg))
     return '%s:%s' % (('from_' if job.get('kind') == 'ctor' else 'update_') + job.get('parser', '?'), msg.split(': ', 1)[-1])
 
 
